@@ -81,30 +81,96 @@ func (r *schedReg) StoreOrSwap(typ reflect.Type, tag string, c plenccodec.Codec)
 	return c
 }
 
-// codecUsable exercises a codec on a sample value of its type.
+// fullValue builds a value with every pointer, slice and map populated down to
+// the given depth, and no zero scalars: every part of a codec is exercised and
+// every field must come back.
+func fullValue(t reflect.Type, depth int) reflect.Value {
+	v := reflect.New(t).Elem()
+	fillFull(v, depth)
+	return v
+}
+
+func fillFull(v reflect.Value, depth int) {
+	t := v.Type()
+	if t == tTime {
+		v.Set(reflect.ValueOf(time.Unix(1700000000, 5000).UTC()))
+		return
+	}
+	switch t.Kind() {
+	case reflect.Bool:
+		v.SetBool(true)
+	case reflect.Int, reflect.Int8, reflect.Int16, reflect.Int32, reflect.Int64:
+		v.SetInt(-3)
+	case reflect.Uint, reflect.Uint8, reflect.Uint16, reflect.Uint32, reflect.Uint64:
+		v.SetUint(5)
+	case reflect.Float32, reflect.Float64:
+		v.SetFloat(1.5)
+	case reflect.String:
+		v.SetString("s")
+	case reflect.Ptr:
+		if depth > 0 {
+			p := reflect.New(t.Elem())
+			fillFull(p.Elem(), depth-1)
+			v.Set(p)
+		}
+	case reflect.Slice:
+		if t == tBytes {
+			v.SetBytes([]byte{1, 2})
+		} else if depth > 0 {
+			s := reflect.MakeSlice(t, 1, 1)
+			fillFull(s.Index(0), depth-1)
+			v.Set(s)
+		}
+	case reflect.Map:
+		if depth > 0 {
+			m := reflect.MakeMap(t)
+			k := reflect.New(t.Key()).Elem()
+			fillFull(k, depth-1)
+			e := reflect.New(t.Elem()).Elem()
+			fillFull(e, depth-1)
+			m.SetMapIndex(k, e)
+			v.Set(m)
+		}
+	case reflect.Struct:
+		for i := 0; i < t.NumField(); i++ {
+			if !skipped(t.Field(i)) {
+				fillFull(v.Field(i), depth)
+			}
+		}
+	}
+}
+
+// codecUsable exercises a codec on a fully populated value of its type: the
+// sizes must agree and every field must come back.
 func codecUsable(c plenccodec.Codec, typ reflect.Type) (ok bool) {
 	defer func() {
 		if recover() != nil {
 			ok = false
 		}
 	}()
-	vg := &ValGen{r: newRNG(7)}
-	v := vg.Value(typ, 3)
-	ptr := v.Addr().UnsafePointer()
-	if typ.Kind() == reflect.Map {
-		ptr = v.UnsafePointer()
-		if ptr == nil {
-			return true
+	for _, depth := range []int{4, 1} {
+		v := fullValue(typ, depth)
+		ptr := v.Addr().UnsafePointer()
+		if typ.Kind() == reflect.Map {
+			ptr = v.UnsafePointer()
+			if ptr == nil {
+				continue
+			}
+		}
+		sz := c.Size(ptr, nil)
+		b := c.Append(nil, ptr, nil)
+		if sz != len(b) {
+			return false
+		}
+		out := reflect.New(typ)
+		if _, err := c.Read(b, out.UnsafePointer(), c.WireType()); err != nil {
+			return false
+		}
+		if coqVal(out.Elem()) != coqVal(v) {
+			return false
 		}
 	}
-	sz := c.Size(ptr, nil)
-	b := c.Append(nil, ptr, nil)
-	if sz != len(b) {
-		return false
-	}
-	out := reflect.New(typ)
-	_, err := c.Read(b, out.UnsafePointer(), c.WireType())
-	return err == nil
+	return true
 }
 
 func newSharedReg() *sharedReg {
@@ -140,7 +206,43 @@ type UsesShared2 struct {
 	R []Rec             `plenc:"3"`
 }
 
+// a self loop inside a mutually recursive pair, in both declaration orders, and a three-cycle
+type LoopL struct {
+	Head *LoopN `plenc:"1"`
+	X    int    `plenc:"2"`
+}
+type LoopN struct {
+	Next  *LoopN `plenc:"1"`
+	Owner *LoopL `plenc:"2"`
+	Y     string `plenc:"3"`
+}
+type LoopL2 struct {
+	Head *LoopN2 `plenc:"1"`
+	X    int     `plenc:"2"`
+}
+type LoopN2 struct {
+	Owner *LoopL2  `plenc:"1"`
+	Next  []LoopN2 `plenc:"2"`
+	Y     string   `plenc:"3"`
+}
+type CycA struct {
+	B *CycB `plenc:"1"`
+	N int   `plenc:"2"`
+}
+type CycB struct {
+	Self map[string]CycB `plenc:"1"`
+	C    []CycC          `plenc:"2"`
+}
+type CycC struct {
+	A *CycA  `plenc:"1"`
+	S string `plenc:"2"`
+}
+
 var concurFamilies = [][]reflect.Type{
+	{reflect.TypeOf(LoopL{}), reflect.TypeOf(LoopN{})},
+	{reflect.TypeOf(LoopL2{}), reflect.TypeOf(LoopN2{})},
+	{reflect.TypeOf(CycA{}), reflect.TypeOf(CycC{})},
+	{reflect.TypeOf(CycA{}), reflect.TypeOf(CycB{}), reflect.TypeOf(CycC{})},
 	{reflect.TypeOf(Rec{}), reflect.TypeOf(Rec{})},
 	{reflect.TypeOf(MutA{}), reflect.TypeOf(MutB{})},
 	{reflect.TypeOf(UsesShared1{}), reflect.TypeOf(UsesShared2{})},
